@@ -393,3 +393,78 @@ func VerifRun_C18d() {
 		}
 	}
 }
+
+// e: "the answer changes as soon as such a file is created or deleted" - also when the module string already
+// resolves. m.lua requires "x"; the files x.lua, x/init.lua and lib/x.lua exist or not; then one of them is
+// created or deleted (watched-file event). Afterwards the file the analysis has loaded for the require is the
+// one a fresh start loads on the same disk, and the type-6 diagnostic agrees with it.
+func VerifRun_C18e() {
+	root := verifVFSRoot()
+	pathpre.InitialRootURIAndPath("file://"+root, root)
+	dm := common.GConfig.GetDirManager()
+	dm.SetVSRootDir(root)
+	dm.InitMainDir()
+	mainF := root + "/m.lua"
+	cands := []string{root + "/x.lua", root + "/x/init.lua", root + "/lib/x.lua"}
+	verifVFSPut(mainF, []byte("local r = require(\"x\")\nq = r\n"))
+	files := []string{mainF}
+	on := make([]bool, len(cands))
+	for i, c := range cands {
+		on[i] = verifBool("present")
+		if on[i] {
+			verifVFSPut(c, []byte("return "+string([]byte{'1' + byte(i)})+"\n"))
+			files = append(files, c)
+		}
+	}
+	p := check.CreateAllProject(files, nil, nil)
+	p.HandleCheck()
+	for k := 0; k < verifParam("EVENTS"); k++ {
+		i := verifConcretize(verifRange("which", 0, len(cands)-1))
+		if on[i] {
+			verifVFSDel(cands[i])
+			p.HandleFileEventChanges([]check.FileEventStruct{{StrFile: cands[i], Type: check.FileEventDeleted}})
+		} else {
+			verifVFSPut(cands[i], []byte("return 9\n"))
+			p.HandleFileEventChanges([]check.FileEventStruct{{StrFile: cands[i], Type: check.FileEventCreated}})
+		}
+		on[i] = !on[i]
+	}
+	now := []string{mainF}
+	for i, c := range cands {
+		if on[i] {
+			now = append(now, c)
+		}
+	}
+	fresh := check.CreateAllProject(now, nil, nil)
+	fresh.HandleCheck()
+	loadedOf := func(q *check.AllProject) (string, int) {
+		loaded, n6 := "", 0
+		if fs, ok := q.GetFirstFileStuct(mainF); ok && fs.FileResult != nil {
+			for _, r := range fs.FileResult.ReferVec {
+				if r.Valid {
+					loaded = r.ReferValidStr
+				}
+			}
+		}
+		for _, e := range q.GetAllFileErrorInfo()[mainF] {
+			if e.ErrType == common.CheckErrorNoFile {
+				n6++
+			}
+		}
+		return loaded, n6
+	}
+	gotL, got6 := loadedOf(p)
+	wantL, want6 := loadedOf(fresh)
+	verifReach("compared")
+	tie := on[1] && on[2] && !on[0] // x/init.lua against lib/x.lua: no documented preference (known tie class of C09)
+	if tie {
+		return
+	}
+	if gotL != wantL {
+		verifObserve("loaded", gotL+" / fresh: "+wantL)
+		verifViolation("", "after a module file was created or deleted the analysis still loads another file than a fresh start does")
+	}
+	if (got6 > 0) != (want6 > 0) {
+		verifViolation("", "after a module file was created or deleted the file-not-found diagnostic differs from a fresh start's")
+	}
+}
